@@ -36,16 +36,29 @@ RULE = (
     "admissible. Distinct = distinct (backend, history, window, k, action)."
 )
 ASSUMPTIONS = [
+    "end-to-end shards: a real gunicorn/uvicorn server process tree started from the tree under test (vf/e2e_launch.py: the repository's run_with_gunicorn / run_with_uvicorn; the SQL schema is made with the repository's metadata.create_all because its alembic env.py does not run with the installed SQLAlchemy; the notifier's fixed TCP port 6000 is replaced by a free port), spoken to over loopback TCP with the websockets client; real time, real sleeps",
     "kill granularity is 'between engine API calls': a crash inside mdb_txn_commit / SQLite's commit is the engine's contract",
     "SQL = SQLite in WAL mode reopened with the sqlite3 module; LMDB = real liblmdb through /verif/shim, reopened read-only",
     "reference states are produced by the code under test itself in fault-free runs (atomicity, not functional correctness, is judged)",
 ]
 MIN_NONTRIVIAL = {"quick": 150, "thorough": 1500}
-REQUIRED_COUNTERS = ["points.error", "points.kill", "points.multi-error", "kills_observed", "errors_fired"]
+REQUIRED_COUNTERS = ["e2e.e2e_kills", "e2e.e2e_kill_states_matched", "e2e.e2e_recoveries", "points.error", "points.kill", "points.multi-error", "kills_observed", "errors_fired"]
 SHARD_TIMEOUT = {"quick": 900, "thorough": 3400}
 
 
 def plan(tier, seed):
+    return _plan(tier, seed) + e2e_plan(tier, seed)
+
+
+def e2e_plan(tier, seed):
+    """shards on a REAL server process tree (vf/e2e.py)"""
+    out = []
+    for i in range(1 if tier == "quick" else 6):
+        out += [{"mode": "e2e", "e2e": "kill", "backend": b, "seed": seed * 7919 + i, "trials": 4 if tier == "quick" else 10} for b in ("sql", "lmdb")]
+    return out
+
+
+def _plan(tier, seed):
     nh, parts, pairs_every = (1, 7, 4) if tier == "quick" else (6, 8, 1)
     out = []
     for b in ("sql", "lmdb"):
@@ -164,6 +177,10 @@ def windows_of(n, part, parts, pairs_every):
 
 
 def run_shard(spec):
+    if spec.get("mode") == "e2e":
+        from .. import e2e_cases
+
+        return e2e_cases.run_e2e_shard(ID, spec)
     backend = spec["backend"]
     history = gen_history(spec["history_seed"])
     counters = {"points": {}}
@@ -271,6 +288,10 @@ def run_shard(spec):
 
 
 def replay(rp, spec):
+    if rp.get("mode") == "e2e":
+        from .. import e2e_cases
+
+        return e2e_cases.run_e2e_shard(ID, rp)
     backend = rp["backend"]
     if rp.get("multi"):
         res = run_shard({"backend": backend, "history_seed": rp["history_seed"], "multi": True})
